@@ -85,6 +85,13 @@ def read_rows(path, reg):
                 minreg=numpy.array(f.ds9_region_file_mask(reg, mc=True), dtype=bool),
                 tstart=f.primary_header['TSTART'], tstop=f.primary_header['TSTOP'])
     f.close()
+    # the boolean array of a direct selection (`--mask`): one file per event file, at a fixed path, written once and used by every selection
+    # of the run that asks for it (what one selection does to the array it loaded must not show in the next one, nor on disk)
+    gm = numpy.random.default_rng(len(rows['time']) * 7919 + int(rows['pi'].sum()))
+    rows['inmask'] = gm.uniform(size=len(rows['time'])) < 0.55
+    rows['maskfile'] = path.replace('.fits', '_mask.npy')
+    if not os.path.exists(rows['maskfile']):
+        numpy.save(rows['maskfile'], rows['inmask'])
     return rows
 
 
@@ -128,6 +135,8 @@ def gen_cfg(g, rows, malformed=False):
             kw['phaseinvert'] = True
     elif g.uniform() < 0.2:
         kw['tinvert'] = True          # invert flag without bounds: ignored by the code
+    elif g.uniform() < 0.6:
+        kw['mask'] = 'MASK'           # direct selection with a boolean array
     if g.uniform() < 0.6:
         mcflag = g.uniform() < 0.3
         pool = numpy.unique(rows['mce'] if mcflag else E)
@@ -219,7 +228,8 @@ def impl_select(path, reg, kw, outname='out'):
     from astropy.io import fits
     from unittest import mock
     kwargs = PARSER.parse_args([path]).__dict__
-    kwargs.update({k: (reg if v == 'REG' else v) for k, v in kw.items()})
+    sub = lambda v: reg if v == 'REG' else (path.replace('.fits', '_mask.npy') if v == 'MASK' else v)      # noqa
+    kwargs.update({k: sub(v) for k, v in kw.items()})
     kwargs['suffix'] = outname
 
     def _abort(msg=''):
@@ -230,7 +240,7 @@ def impl_select(path, reg, kw, outname='out'):
             if _ENTRY[0] % 3 == 1 and 'mcsrcid' not in kw:
                 # through the pipeline wrapper (keyword arguments turned into command-line switches and parsed again), as the example pipelines do
                 from ixpeobssim.core import pipeline
-                o = pipeline.xpselect(path, overwrite=True, suffix=outname, **{k: (reg if v == 'REG' else v) for k, v in kw.items()})
+                o = pipeline.xpselect(path, overwrite=True, suffix=outname, **{k: sub(v) for k, v in kw.items()})
                 o = o[0] if isinstance(o, (list, tuple)) else o
             else:
                 o = subselect.xEventSelect(path, **kwargs).select()
@@ -274,10 +284,10 @@ def model_line(rows, kw):
     flat = []
     for i in range(len(rows['time'])):
         flat += [f2b(rows['time'][i]), f2b(float(rows['phase'][i])), int(rows['pi'][i]), f2b(float(rows['mce'][i])), f2b(s[i]), f2b(ms[i]),
-                 int(rows['inreg'][i]), int(rows['minreg'][i]), int(rows['src'][i]), int(rows['tag'][i])]
+                 int(rows['inreg'][i]) + 2 * int(rows['inmask'][i]), int(rows['minreg'][i]), int(rows['src'][i]), int(rows['tag'][i])]
     return 'select %s %s %s %s %s %s %s %s %s %s %s %s %s %s %d %d %d %s %d %s' % (
         o('tmin'), o('tmax'), b('tinvert'), o('phasemin'), o('phasemax'), b('phaseinvert'), o('emin'), o('emax'), b('einvert'), b('mc'),
-        o('rad'), o('innerrad'), '1' if kw.get('regfile') else '0', b('reginvert'), f2b(rows['tstart']), f2b(rows['tstop']),
+        o('rad'), o('innerrad'), str((1 if kw.get('regfile') else 0) + (2 if kw.get('mask') else 0)), b('reginvert'), f2b(rows['tstart']), f2b(rows['tstop']),
         len(src), ' '.join(map(str, src)), len(flat), ' '.join(map(str, flat)))
 
 
@@ -303,6 +313,8 @@ def ref_mask(rows, kw):
         if kw.get('phasemax') is not None:
             pm &= P < kw['phasemax']
         m &= ~pm if kw.get('phaseinvert') else pm
+    elif kw.get('mask'):
+        m &= rows['inmask']
     en = rows['mce'].astype(float) if kw.get('mc') else (rows['pi'] * 0.04 + 0.02)
     em = numpy.ones(n, bool)
     for k, op in (('emin', numpy.greater_equal), ('emax', numpy.less)):
@@ -416,7 +428,7 @@ def _run_cases(chk, g, n):
             jobs.append(kw)
         replies = drv.run()
         for i, (kw, rep) in enumerate(zip(jobs, replies)):
-            ncrit = sum(1 for k in ('tmin', 'tmax', 'phasemin', 'phasemax', 'emin', 'emax', 'rad', 'innerrad', 'regfile', 'mcsrcid') if kw.get(k) not in (None, []))
+            ncrit = sum(1 for k in ('tmin', 'tmax', 'phasemin', 'phasemax', 'emin', 'emax', 'rad', 'innerrad', 'regfile', 'mcsrcid', 'mask') if kw.get(k) not in (None, []))
             try:
                 res = impl_select(path, reg, kw, 'o%d' % i)
             except BaseException as e:
@@ -474,6 +486,9 @@ def _run_cases(chk, g, n):
                             chk.case(dict(op='chain', first=kw, second=kwb), nontrivial=True)
                             if rb[1] != [t for t in res[1] if t in set(ra[1])]:
                                 chk.fail('impl', 'chaining %s then %s differs from the conjunction' % (kw, kwb), dict(oracle='chain', first=kw, second=kwb))
+        # the boolean array of the direct selections is an input: the file must still hold what was written
+        if not numpy.array_equal(numpy.load(rows['maskfile']), rows['inmask']):
+            chk.fail('impl', 'the array file of --mask was modified by the selections', dict(oracle='maskfile'))
 
 
 def main(chk):
